@@ -257,17 +257,25 @@ MODULE_GLOBALS = {'math': SModule('math'), 'sle': SModule('sle'), 'tt': SModule(
 
 
 def check_obligation(ctx, ob):
-    s = z3.Solver()
-    s.set('timeout', Z3_TIMEOUT_MS if ob.expect != 'sat' else min(Z3_TIMEOUT_MS, 5000))
+    """Discharges one obligation.  Wall-clock budgets are retried once with a six-fold budget when the solver gives up, so
+    that a busy machine (all cores loaded) does not turn a discharged obligation into `undecided`."""
     from vt.e1 import calls as _calls
-    for a in list(ctx.axioms) + list(_calls.AXIOMS):
-        s.add(a)
-    for p in ob.pc:
-        s.add(p)
-    s.add(z3.Not(ob.goal))
-    t0 = time.time()
-    r = s.check()
-    dt = time.time() - t0
+    first = Z3_TIMEOUT_MS if ob.expect != 'sat' else min(Z3_TIMEOUT_MS, 5000)
+    total = 0.0
+    for budget in (first, 6 * first):
+        s = z3.Solver()
+        s.set('timeout', budget)
+        for a in list(ctx.axioms) + list(_calls.AXIOMS):
+            s.add(a)
+        for p in ob.pc:
+            s.add(p)
+        s.add(z3.Not(ob.goal))
+        t0 = time.time()
+        r = s.check()
+        total += time.time() - t0
+        if r != z3.unknown:
+            break
+    dt = total
     model = ''
     if r == z3.sat:
         try:
